@@ -20,16 +20,17 @@ const ChmodBits = fs.ModePerm | fs.ModeSetuid | fs.ModeSetgid | fs.ModeSticky
 
 // Want is one expected payload entry.
 type Want struct {
-	Path    string // absolute, clean, no trailing slash
-	Kind    byte   // 'f' regular, 'd' declared dir, 'i' implied dir, 'l' symlink, 'g' ghost
-	Type    string // nfpm content type of the entry
-	Mode    fs.FileMode
-	Owner   string
-	Group   string
-	MTime   time.Time
-	Data    []byte
-	Link    string
-	OnlyRPM bool // exists only in rpm packages (ghost and the parent it alone implies)
+	Path     string // absolute, clean, no trailing slash
+	Kind     byte   // 'f' regular, 'd' declared dir, 'i' implied dir, 'l' symlink, 'g' ghost
+	Type     string // nfpm content type of the entry
+	Mode     fs.FileMode
+	Owner    string
+	Group    string
+	MTime    time.Time
+	Data     []byte
+	Link     string
+	FromTree bool // a directory found by walking a tree source (its mode is the on-disk mode)
+	OnlyRPM  bool // exists only in rpm packages (ghost and the parent it alone implies)
 }
 
 type Scenario struct {
@@ -61,7 +62,8 @@ type Options struct {
 	SymContent bool // file bytes (and length)
 	SymDst     bool // destination spelling
 	SymType    bool // file / config / config|noreplace / config|missingok
-	Second     int  // 0 none, 1 declared dir, 2 symlink, 3 second file, 4 rpm ghost, -1 symbolic choice of 1..3, -2 of 1..4
+	Second     int  // 0 none, 1 declared dir, 2 symlink, 3 second file, 4 rpm ghost, 5..8 rpm doc/licence/license/readme,
+	// 9 tree, 10 directory source (glob), 11 on-disk symlink source; -1 symbolic choice of 1..3, -2 of 1..4, -3 of 4..8, -4 of 9..11
 }
 
 func u32(sym bool, name string, def uint32) uint32 {
@@ -150,6 +152,10 @@ func Payload(o Options) *Scenario {
 		second = 1 + zz.NondetChoice("e2.kind", 3)
 	} else if second == -2 {
 		second = 1 + zz.NondetChoice("e2.kind", 4)
+	} else if second == -3 {
+		second = 4 + zz.NondetChoice("e2.kind", 5)
+	} else if second == -4 {
+		second = 9 + zz.NondetChoice("e2.kind", 3)
 	}
 	parent := Want{Path: "/xx", Kind: 'i', Type: files.TypeImplicitDir, Mode: 0o755, Owner: "root", Group: "root", MTime: sc.MTime}
 	switch second {
@@ -188,6 +194,43 @@ func Payload(o Options) *Scenario {
 		info.Contents = append(info.Contents, &files.Content{Source: src2, Destination: "/xx/g"})
 		sc.Wants = append(sc.Wants, parent,
 			Want{Path: "/xx/g", Kind: 'f', Type: files.TypeFile, Data: c2, Mode: sm &^ sc.Umask, Owner: "root", Group: "root", MTime: sc.MTime})
+	case 5, 6, 7, 8: // rpm-only documentation entries
+		typ := []string{files.TypeRPMDoc, files.TypeRPMLicence, files.TypeRPMLicense, files.TypeRPMReadme}[second-5]
+		body := []byte("D")
+		src2 := models.AddFile("/src/doc", body, 0o644, tm(false, "", 1500000000))
+		parent.OnlyRPM = true
+		info.Contents = append(info.Contents, &files.Content{Source: src2, Destination: "/xx/doc", Type: typ})
+		sc.Wants = append(sc.Wants, parent,
+			Want{Path: "/xx/doc", Kind: 'f', Type: typ, Data: body, Mode: 0o644 &^ sc.Umask, Owner: "root", Group: "root", MTime: sc.MTime, OnlyRPM: true})
+	case 9, 10: // a tree, or a directory source expanded by globbing: /src/t holds a and sub/b
+		mtT := tm(false, "", 1500000000)
+		models.AddDir("/src", 0o755, mtT)
+		root := models.AddDir("/src/t", 0o755, mtT)
+		models.AddFile("/src/t/a", []byte("A"), 0o644, mtT)
+		models.AddDir("/src/t/sub", 0o750, mtT)
+		models.AddFile("/src/t/sub/b", []byte("B"), 0o600, mtT)
+		if second == 9 {
+			info.Contents = append(info.Contents, &files.Content{Source: root, Destination: "/xx/t", Type: files.TypeTree})
+			sc.Wants = append(sc.Wants, parent,
+				Want{Path: "/xx/t", Kind: 'd', Type: files.TypeDir, Mode: 0o755 &^ sc.Umask, Owner: "root", Group: "root", MTime: mtT, FromTree: true},
+				Want{Path: "/xx/t/a", Kind: 'f', Type: files.TypeFile, Data: []byte("A"), Mode: 0o644 &^ sc.Umask, Owner: "root", Group: "root", MTime: sc.MTime},
+				Want{Path: "/xx/t/sub", Kind: 'd', Type: files.TypeDir, Mode: 0o750 &^ sc.Umask, Owner: "root", Group: "root", MTime: mtT, FromTree: true},
+				Want{Path: "/xx/t/sub/b", Kind: 'f', Type: files.TypeFile, Data: []byte("B"), Mode: 0o600 &^ sc.Umask, Owner: "root", Group: "root", MTime: sc.MTime})
+		} else {
+			info.Contents = append(info.Contents, &files.Content{Source: root, Destination: "/xx/t"})
+			sc.Wants = append(sc.Wants, parent,
+				Want{Path: "/xx/t", Kind: 'i', Type: files.TypeImplicitDir, Mode: 0o755, Owner: "root", Group: "root", MTime: sc.MTime},
+				Want{Path: "/xx/t/a", Kind: 'f', Type: files.TypeFile, Data: []byte("A"), Mode: 0o644 &^ sc.Umask, Owner: "root", Group: "root", MTime: sc.MTime},
+				Want{Path: "/xx/t/sub", Kind: 'i', Type: files.TypeImplicitDir, Mode: 0o755, Owner: "root", Group: "root", MTime: sc.MTime},
+				Want{Path: "/xx/t/sub/b", Kind: 'f', Type: files.TypeFile, Data: []byte("B"), Mode: 0o600 &^ sc.Umask, Owner: "root", Group: "root", MTime: sc.MTime})
+		}
+	case 11: // a source that is a symlink on disk is shipped as a symlink
+		mtT := tm(false, "", 1500000000)
+		models.AddFile("/src/real", []byte("R"), 0o644, mtT)
+		l := models.AddSymlink("/src/lnk", "real", mtT)
+		info.Contents = append(info.Contents, &files.Content{Source: l, Destination: "/xx/lnk"})
+		sc.Wants = append(sc.Wants, parent,
+			Want{Path: "/xx/lnk", Kind: 'l', Type: files.TypeSymlink, Link: "real", Owner: "root", Group: "root", MTime: sc.MTime})
 	case 4: // rpm ghost
 		parent.OnlyRPM = true
 		info.Contents = append(info.Contents, &files.Content{Destination: "/xx/ghost", Type: files.TypeRPMGhost})
